@@ -90,6 +90,9 @@ def generate(streams: core.Streams, tier: str) -> dict:
         elif r < 0.23:  # unsupported by backend: fieldref|startswith has no expression in SimBackend
             det["unsupp"] = {"Image|fieldref|startswith": "User"}
             det["condition"] = names[0] + " or unsupp"
+        elif r < 0.28:  # a keyword (no field) whose value type the backends cannot render without a field
+            det["kwtype"] = gen.pick(f, [{"|windash": " -enc"}, {"|base64offset|contains": "foo"}, [None], {"|gt": 5}])
+            det["condition"] = names[0] + " or kwtype"
     filters = []
     for i in range(w.choice([0, 0, 0, 1, 1, 2])):
         target: Any = "any" if gen.chance(w, 0.5) else [
@@ -142,6 +145,8 @@ def generate(streams: core.Streams, tier: str) -> dict:
     sc["correlations"] = corrs
     # the same collection object converted once more by the same backend (drawn last); the last pass is judged
     sc["passes"] = 2 if gen.chance(s, 0.2) else 1
+    # ... the first time without the injected faults, so that rules fail only in the pass that is judged
+    sc["first_pass_clean"] = sc["passes"] == 2 and gen.chance(s, 0.5)
     return sc
 
 
@@ -173,7 +178,9 @@ def _convert_passes(sc: dict, b: Any, coll: Any) -> dict:
     from sigsim import world
 
     res: dict = {}
-    for _ in range(int(sc.get("passes", 1))):
+    n = int(sc.get("passes", 1))
+    for k in range(n):
+        b.set_faults([] if (sc.get("first_pass_clean") and k < n - 1) else sc.get("faults", []))
         start = len(b.errors)
         res = world.capture(lambda: b.convert(coll, sc["format"]))
         res["errors"] = world.errors_record(b.errors, start)
@@ -227,7 +234,10 @@ def execute(scenario: dict) -> dict:
     # a "can't happen" branch after set_value:null on a keyword) - not one of the listed failure
     # stages.  If such an exception only shows up in the batch, the comparison below reports it.
     def _listed(a: dict) -> bool:
-        return "unloadable" not in a and ("ok" in a or a.get("sigma") or a.get("exc") == "NotImplementedError")
+        # "value type unsupported by the backend" is a listed stage: the TypeError of the value type
+        # dispatch counts (and must be collected), other non-Sigma exceptions do not
+        return "unloadable" not in a and ("ok" in a or a.get("sigma") or a.get("exc") == "NotImplementedError"
+                                          or (a.get("exc") == "TypeError" and "Unexpected value type" in str(a.get("msg"))))
 
     keep = [i for i, a in enumerate(alone) if _listed(a)]
     dropped = sum(1 for a in alone if "unloadable" in a)
@@ -540,7 +550,12 @@ def shrink(sc: dict) -> Iterable[dict]:
     if int(sc.get("passes", 1)) > 1:
         c = copy.deepcopy(sc)
         c["passes"] = 1
+        c["first_pass_clean"] = False
         yield c
+        if sc.get("first_pass_clean"):
+            c = copy.deepcopy(sc)
+            c["first_pass_clean"] = False
+            yield c
     if sc["format"] != "default":
         c = copy.deepcopy(sc)
         c["format"] = "default"
